@@ -306,19 +306,14 @@ def multiMembers : Geom → List Geom
   | .multiPolygon ps => ps.map .polygon
   | _ => []
 
-mutual
-def geomDepth : Geom → Nat
-  | .collection gs => 1 + geomDepthList gs
-  | _ => 1
-def geomDepthList : List Geom → Nat
-  | [] => 0
-  | g :: gs => Nat.max (geomDepth g) (geomDepthList gs)
-end
+def collMembers : Geom → List Geom
+  | .collection gs => gs
+  | _ => []
 
-/-- The ordered list of single-part calls `(x, y)` (meaning `distance(x, y)` on base types) that
-`distance(a, b)` folds `min` over, following the four macros
-(`impl_euclidean_distance_for_iter_geometry!`, `…_for_geometry_and_variant!`, the `Geometry ×
-Geometry` impl and `symmetric_distance_impl!`):
+/-- One dispatch step of `distance(a, b)`: either the single-part call it ends in (`inl`) or the
+ordered operand pairs `(x, y)` of the calls `distance(x, y)` it folds `min` over (`inr`),
+following the four macros (`impl_euclidean_distance_for_iter_geometry!`,
+`…_for_geometry_and_variant!`, the `Geometry × Geometry` impl and `symmetric_distance_impl!`):
 
 * `(Multi a, Multi b)` of the same kind: fold `m ∈ a` of `distance(m, b)` → symmetric →
   fold `m' ∈ b` of `distance(m', m)` (operands exchanged);
@@ -327,43 +322,51 @@ Geometry` impl and `symmetric_distance_impl!`):
   `MultiPolygon` (when neither of the former is);
 * `(GC a, GC b)`: fold `g ∈ a` of `distance(&Geometry g, b)` → symmetric → `distance(b, g)`;
 * `(GC a, base b)`: fold of `distance(&Geometry g, b)` → symmetric → `distance(b, g)`;
-  `(base a, GC b)` → symmetric → fold of `distance(&Geometry g, a)` → `distance(a, g)`.
+  `(base a, GC b)` → symmetric → fold of `distance(&Geometry g, a)` → `distance(a, g)`. -/
+def expand (a b : Geom) : Sum (List (Base × Base)) (List (Geom × Geom)) :=
+  match kindOf a, kindOf b with
+  | .base, .base =>
+    .inl (match Base.ofGeom? a, Base.ofGeom? b with
+      | some x, some y => [(x, y)]
+      | _, _ => [])
+  | .mpt, .mpt => .inr ((multiMembers a).flatMap (fun p => (multiMembers b).map (fun q => (q, p))))
+  | .mpt, _ => .inr ((multiMembers a).map (fun p => (p, b)))
+  | _, .mpt => .inr ((multiMembers b).map (fun q => (q, a)))
+  | .mls, .mls => .inr ((multiMembers a).flatMap (fun p => (multiMembers b).map (fun q => (q, p))))
+  | .mls, _ => .inr ((multiMembers a).map (fun p => (p, b)))
+  | _, .mls => .inr ((multiMembers b).map (fun q => (q, a)))
+  | .mpg, .mpg => .inr ((multiMembers a).flatMap (fun p => (multiMembers b).map (fun q => (q, p))))
+  | .mpg, _ => .inr ((multiMembers a).map (fun p => (p, b)))
+  | _, .mpg => .inr ((multiMembers b).map (fun q => (q, a)))
+  | .gc, .gc => .inr ((collMembers a).map (fun g => (b, g)))
+  | .gc, .base => .inr ((collMembers a).map (fun g => (b, g)))
+  | .base, .gc => .inr ((collMembers b).map (fun h => (a, h)))
 
-`fuel` bounds the recursion (collection nesting of both operands); `callsF` is total and the
-driver supplies enough fuel. -/
+/-- The ordered list of single-part calls `(x, y)` (meaning `distance(x, y)` on base types) that
+`distance(a, b)` folds `min` over; `fuel` bounds the number of dispatch steps. -/
 def callsF : Nat → Geom → Geom → List (Base × Base)
   | 0, _, _ => []
   | fuel + 1, a, b =>
-    match kindOf a, kindOf b with
-    | .base, .base =>
-      match Base.ofGeom? a, Base.ofGeom? b with
-      | some x, some y => [(x, y)]
-      | _, _ => []
-    | .mpt, .mpt => (multiMembers a).flatMap (fun p => (multiMembers b).flatMap (fun q => callsF fuel q p))
-    | .mpt, _ => (multiMembers a).flatMap (fun p => callsF fuel p b)
-    | _, .mpt => (multiMembers b).flatMap (fun q => callsF fuel q a)
-    | .mls, .mls => (multiMembers a).flatMap (fun p => (multiMembers b).flatMap (fun q => callsF fuel q p))
-    | .mls, _ => (multiMembers a).flatMap (fun p => callsF fuel p b)
-    | _, .mls => (multiMembers b).flatMap (fun q => callsF fuel q a)
-    | .mpg, .mpg => (multiMembers a).flatMap (fun p => (multiMembers b).flatMap (fun q => callsF fuel q p))
-    | .mpg, _ => (multiMembers a).flatMap (fun p => callsF fuel p b)
-    | _, .mpg => (multiMembers b).flatMap (fun q => callsF fuel q a)
-    | .gc, .gc =>
-      match a with
-      | .collection gs => gs.flatMap (fun g => callsF fuel b g)
-      | _ => []
-    | .gc, .base =>
-      match a with
-      | .collection gs => gs.flatMap (fun g => callsF fuel b g)
-      | _ => []
-    | .base, .gc =>
-      match b with
-      | .collection hs => hs.flatMap (fun h => callsF fuel a h)
-      | _ => []
+    match expand a b with
+    | .inl r => r
+    | .inr subs => subs.flatMap (fun xy => callsF fuel xy.1 xy.2)
 
-/-- enough fuel: every step either strips a Multi* (at most twice per operand pair level) or
-descends into a collection member -/
-def callsFuel (a b : Geom) : Nat := 3 * (geomDepth a + geomDepth b) + 4
+mutual
+/-- number of dispatch steps an operand can cause: 1 for a single-part type, 2 for a Multi*, two
+more than its deepest member for a collection -/
+def geomW : Geom → Nat
+  | .collection gs => geomWList gs + 2
+  | .multiPoint _ => 2
+  | .multiLineString _ => 2
+  | .multiPolygon _ => 2
+  | _ => 1
+def geomWList : List Geom → Nat
+  | [] => 0
+  | g :: gs => Nat.max (geomW g) (geomWList gs)
+end
+
+/-- enough fuel (every dispatch step lowers `geomW a + geomW b`, see `callsF_fuel`) -/
+def callsFuel (a b : Geom) : Nat := geomW a + geomW b
 
 def calls (a b : Geom) : List (Base × Base) := callsF (callsFuel a b) a b
 
